@@ -8,6 +8,7 @@ import sys, os
 sys.path.insert(0, "/verif")
 from vlib import native, kani
 n = native.Native("/verif/work/logs"); n.ensure(); print("native:", n.bin or n.build_error)
+n = native.Native("/verif/work/logs", "native_pool", "vnative_pool"); n.ensure(); print("native_pool:", n.bin or n.build_error)
 from mir2smt.dump import dump
 import glob, importlib
 crates = set(); kcr = set()
